@@ -1,6 +1,6 @@
 (** C05 — cancelling an unconfirmed transaction is an exact rollback.
     Statements only (proofs: theories/LedgerProofs.v). *)
-From GW Require Import Ledger LedgerProofs.
+From GW Require Import Ledger LedgerProofs HeldProofs.
 
 (** Frame: in every well-formed wallet, a successful cancel (by log id or slate id) finds
     exactly one unconfirmed sent/received/reverted entry of the active account, rewrites
@@ -46,6 +46,20 @@ Proof. exact wf_reachable. Qed.
 Print Assumptions C05_wf_reachable.
 
 (** Refusals change nothing. *)
+(** History level: no reservation is ever stranded. In every state reachable by standard-flow
+    operations, a Locked output of the active account is linked to a TxSent entry of that
+    account, and as long as that entry is unconfirmed, cancelling it succeeds and returns the
+    output to Unspent. *)
+Theorem C05_every_reservation_can_be_rolled_back : forall ops, forallb std_op ops = true ->
+  let w := run empty_wallet ops in
+  forall k m o, get_out (w_outs w) k m = Some o -> r_status o = Locked -> r_root o = w_active w ->
+  exists id t, r_tx o = Some id /\ get_tx (w_log w) (r_root o) id = Some t /\ t_type t = TSent
+    /\ (t_conf t = false ->
+        snd (cancel w (Some id) None) = Ok tt
+        /\ get_out (w_outs (fst (cancel w (Some id) None))) k m = Some (set_status o Unspent)).
+Proof. exact held_is_releasable. Qed.
+Print Assumptions C05_every_reservation_can_be_rolled_back.
+
 Theorem C05_refused_cancel_changes_nothing : forall w id slate w' e,
   cancel w id slate = (w', Err e) -> w' = w.
 Proof. exact cancel_refusals. Qed.
